@@ -24,6 +24,7 @@ type Clause struct {
 }
 
 type LoopSpec struct {
+	Leaves     []*Clause // proved at every edge that leaves the loop other than by return/panic (break, or the loop condition failing)
 	Steps      []*Clause // stepping stones proved at each back edge (may use prev(x)), then usable by the invariants
 	Defines    []*Clause // definitional axioms for ghost functions over the loop's data (conservative extensions; listed)
 	Invariants []*Clause
@@ -301,6 +302,8 @@ func (sp *Specs) parseFile(f *ast.File, fset *token.FileSet, pkgPath string) {
 				ls.Invariants = append(ls.Invariants, parseClause(parts[2], l.file, l.line, autoLabel(fmt.Sprintf("loop%d.inv", n))))
 			case "step":
 				ls.Steps = append(ls.Steps, parseClause(parts[2], l.file, l.line, autoLabel(fmt.Sprintf("loop%d.step", n))))
+			case "leave":
+				ls.Leaves = append(ls.Leaves, parseClause(parts[2], l.file, l.line, autoLabel(fmt.Sprintf("loop%d.leave", n))))
 			case "define":
 				ls.Defines = append(ls.Defines, parseClause(parts[2], l.file, l.line, autoLabel(fmt.Sprintf("loop%d.def", n))))
 			case "decreases":
